@@ -39,6 +39,38 @@ def leaves(I, v, path=(), guards=()):
     return [(path, v, guards)]
 
 
+def _merge_unconditional(g, lv, n_alt):
+    """leaves of a branch-selected result: a (path, value) pair present under complementary guards of one decision
+    is read unconditionally with respect to that decision"""
+    changed = True
+    while changed:
+        changed = False
+        by = {}
+        for i, (pth, leaf, gds) in enumerate(lv):
+            by.setdefault((pth, g.vn(leaf)), []).append(i)
+        for idxs in by.values():
+            for i in idxs:
+                for j in idxs:
+                    if i >= j:
+                        continue
+                    gi, gj = lv[i][2], lv[j][2]
+                    if len(gi) != len(gj):
+                        continue
+                    diff = [k for k in range(len(gi)) if (g.vn(gi[k][0]), gi[k][1]) != (g.vn(gj[k][0]), gj[k][1])]
+                    if len(diff) == 1 and g.vn(gi[diff[0]][0]) == g.vn(gj[diff[0]][0]) and \
+                            gi[diff[0]][1] != gj[diff[0]][1]:
+                        k = diff[0]
+                        merged = (lv[i][0], lv[i][1], gi[:k] + gi[k + 1:])
+                        lv = [x for m, x in enumerate(lv) if m not in (i, j)] + [merged]
+                        changed = True
+                        break
+                if changed:
+                    break
+            if changed:
+                break
+    return lv
+
+
 def header_key(v):
     """'Config ...' string if v == header[<const str>]"""
     if v.op == "Subscript" and v.args[1].op == "Const" and isinstance(v.args[1].attr, str) and \
@@ -236,13 +268,31 @@ def run(ck, ctx):
         fn = I.input("filename")
         r = I.run(I.func_node(fi), [fn])
         func = "config_from_fits"
-        if r.value is None or r.value.op != "Obj":
-            raise AnalysisError("config_from_fits does not return a configuration object")
-        obj = r.value
-        tops = {k[1]: v for k, v in r.st.heap.items() if k[0] == obj.id}
+        def objects(v, guards=()):
+            """the configuration objects the reader may return, each with the decisions that select it"""
+            if v is not None and v.op == "Phi":
+                return objects(v.args[1], guards + ((v.args[0], True),)) + \
+                    objects(v.args[2], guards + ((v.args[0], False),))
+            if v is None or v.op != "Obj":
+                raise AnalysisError("config_from_fits does not return a configuration object")
+            return [(v, guards)]
+        objs = objects(r.value)
+        obj = objs[0][0]
+        tops = {}
         all_leaves = []
-        for name, v in sorted(tops.items()):
-            all_leaves.extend(leaves(I, I.snapshot(v, r.st), (name,)))
+        seen_leaf = set()
+        for o_, gds_ in objs:
+            tops_o = {k[1]: v for k, v in r.st.heap.items() if k[0] == o_.id}
+            tops.update(tops_o)
+            for name, v in sorted(tops_o.items()):
+                for pth, leaf, lg in leaves(I, I.snapshot(v, r.st), (name,), gds_):
+                    # a value read on every alternative is one read (its guards cancel)
+                    key_ = (pth, g.vn(leaf), tuple((g.vn(c_), p_) for c_, p_ in lg))
+                    if key_ not in seen_leaf:
+                        seen_leaf.add(key_)
+                        all_leaves.append((pth, leaf, lg))
+        if len(objs) > 1:
+            all_leaves = _merge_unconditional(g, all_leaves, len(objs))
         ck.floor("R16.3", len(all_leaves), 27, "values reconstructed by config_from_fits")
         ck.info["reader_leaves"] = len(all_leaves)
         # HDU index
@@ -327,10 +377,11 @@ def run(ck, ctx):
                       "" if got else "a results file of this spectrum type would be reloaded with the field's default",
                       construct=f"config_from_fits: simulation.spectrum.{fname} ({mdl.qualname})")
         # reader key composition: 'Config ' + section + key  (same separator as the writer)
-        consts = {n.value for n in ast.walk(fi.node) if isinstance(n, ast.Constant) and isinstance(n.value, str)}
+        rkeys = [header_key(v) for _p, v, _g in all_leaves]
         ck.ob("R16.1", "the reader composes keys as 'Config ' + path joined by single spaces (writer: "
-              "'HIERARCH Config' + ' ' + path; astropy strips 'HIERARCH ')", "Config " in consts and
-              PREFIX_W.split(" ", 1)[1] + " " == "Config ", obj, func, "")
+              "'HIERARCH Config' + ' ' + path; astropy strips 'HIERARCH ')",
+              bool(rkeys) and all(k_ is not None and k_.startswith("Config ") and "  " not in k_ for k_ in rkeys) and
+              PREFIX_W.split(" ", 1)[1] + " " == "Config ", obj, func, f"{len(rkeys)} keys read")
     ck.guard(reader, "R16.2/R16.3")
 
     # ---------------------------------------------------------------- R16.4 final write
